@@ -8,9 +8,12 @@ package main
 // database.
 
 import (
+	"encoding/json"
 	"fmt"
 	"os"
 	"path/filepath"
+	"strings"
+	"sync"
 	"time"
 
 	"github.com/cenkalti/backoff/v4"
@@ -255,4 +258,112 @@ func c16Leader(r *Run, h int) (ok bool) {
 	r.Case("leader", fmt.Sprint(h))
 	r.Count(fmt.Sprintf("leader:moves:%d", moves))
 	return true
+}
+
+// c16LeaderLostEarly: leadership moves while the client is attaching -- after its leader check, before its
+// monitor of the _Server database is set up -- so that the first thing the client sees of the row is "not the
+// leader"; the row is then rewritten (its index moves) without ever saying "leader" again. The client must not
+// stay with that server.
+func c16LeaderLostEarly(r *Run, h int) (ok bool) {
+	rng := r.Rng
+	ts := genTxnSchema(rng, false)
+	cs := &c16LeaderCase{Model: ts.modelJSON(), Leader0: rng.Intn(2)}
+	fail := func(impl, want, why string) { r.Violation("leader", cs, impl, want, true, why, "") }
+	var rigs [2]*leaderRig
+	for i := range rigs {
+		g, err := newLeaderRig(ts, mkUUID(970001+i), i == cs.Leader0)
+		if err != nil {
+			return false
+		}
+		defer g.Close()
+		rigs[i] = g
+	}
+	first, other := cs.Leader0, 1-cs.Leader0
+	ctx, cancel := ctxT(60 * time.Second)
+	defer cancel()
+	for i, g := range rigs {
+		// different contents, so that it shows which server the client mirrors
+		g.im.transact([]OperationJ{{Op: "insert", Table: ts.Spec.Tables[0].Name, UUID: mkUUID(100 + i), Row: Row{"name": VA(AS(fmt.Sprintf("srv%d", i))), "n": VA(AI(int64(i)))}}}, nil)
+	}
+	px, err := newProxy(rigs[first].sock)
+	if err != nil {
+		return false
+	}
+	defer px.Close()
+	var once sync.Once
+	moved := make(chan struct{})
+	px.rewrite = func(session int, toClient bool, raw json.RawMessage) json.RawMessage {
+		var msg struct {
+			Method string            `json:"method"`
+			Params []json.RawMessage `json:"params"`
+		}
+		if toClient || json.Unmarshal(raw, &msg) != nil || !strings.HasPrefix(msg.Method, "monitor") || len(msg.Params) == 0 || string(msg.Params[0]) != `"_Server"` {
+			return raw
+		}
+		once.Do(func() {
+			_ = rigs[first].setLeader(false)
+			_ = rigs[other].setLeader(true)
+			close(moved)
+		})
+		return raw
+	}
+	cdb, err := BuildDB(ts.Spec, nil)
+	if err != nil {
+		return false
+	}
+	lg := logr.Discard()
+	eps := []string{px.endpoint(), rigs[other].endpoint()}
+	if rng.Intn(2) == 0 {
+		eps[0], eps[1] = eps[1], eps[0]
+	}
+	a, err := client.NewOVSDBClient(cdb.Client, client.WithLogger(&lg), client.WithLeaderOnly(true),
+		client.WithEndpoint(eps[0]), client.WithEndpoint(eps[1]),
+		client.WithReconnect(2*time.Second, backoff.NewConstantBackOff(3*time.Millisecond)))
+	if err != nil {
+		return false
+	}
+	defer a.Close()
+	r.Case("leader", fmt.Sprint("early", h))
+	r.Count("leader:lost-while-attaching")
+	if err := a.Connect(ctx); err != nil {
+		// (the move may make this very attempt fail: an application connects again)
+		for try := 0; try < 50 && err != nil; try++ {
+			time.Sleep(5 * time.Millisecond)
+			cctx, ccancel := ctxT(2 * time.Second)
+			err = a.Connect(cctx)
+			ccancel()
+			if err == client.ErrAlreadyConnected {
+				err = nil
+			}
+		}
+		if err != nil {
+			fail(err.Error(), "connected", "a leader-only client cannot connect although one endpoint is the leader")
+			return false
+		}
+	}
+	select {
+	case <-moved:
+	case <-time.After(5 * time.Second):
+		return true // the client never asked the first leader for its _Server monitor: nothing to see here
+	}
+	// the server that lost leadership rewrites its row: the index moves, "leader" stays false
+	for k := 2; k < 30; k++ {
+		if a.Connected() && a.CurrentEndpoint() == rigs[other].endpoint() {
+			break
+		}
+		bctx, bcancel := ctxT(2 * time.Second)
+		_, _ = rigs[first].admin.Transact(bctx, ovsdb.Operation{Op: ovsdb.OperationUpdate, Table: "Database", Row: ovsdb.Row{"index": k},
+			Where: []ovsdb.Condition{ovsdb.NewCondition("_uuid", ovsdb.ConditionEqual, ovsdb.UUID{GoUUID: rigs[first].rowUUID})}})
+		bcancel()
+		time.Sleep(10 * time.Millisecond)
+	}
+	for try := 0; try < 600; try++ {
+		if a.Connected() && a.CurrentEndpoint() == rigs[other].endpoint() {
+			return true
+		}
+		time.Sleep(5 * time.Millisecond)
+	}
+	fail("attached to "+a.CurrentEndpoint()+" (connected="+fmt.Sprint(a.Connected())+")", "attached to the leader "+rigs[other].endpoint(),
+		"a leader-only client stays with a server whose _Server row says, from the first time the client sees it, that it is not the leader")
+	return false
 }
